@@ -3,7 +3,7 @@ from common import SYNC_RW, RAFT_ENV  # noqa: F401
 
 CHECK = {
     "level": "model_checking",
-    "rule": "three enumerations on the real Core, one oracle (an effect = operation-handler invocation of the recording backend, "
+    "rule": "(part T, identity-templated policy paths: every entity name x metadata value from {plain, +, *, a/b} with one- and two-substitution templates - a value is substituted literally and never acts as a wildcard; every history, depth <= 4, over request / change of the group metadata / change of the entity metadata - the very next request follows the attributes as they are now) three enumerations on the real Core, one oracle (an effect = operation-handler invocation of the recording backend, "
             "non-error response, stored canary in the response, or a change of the physical store; every effect needs an "
             "unauthenticated path or a live credential whose doc-derived reference ACL grants the namespace-qualified path, + sudo "
             "on root-protected paths). (L) lattice: ~100 credential states (absent, garbage, every single-character substitution / "
